@@ -144,9 +144,16 @@ class CallMixin:
             d = self.schema.classes.get(c)
             if d is not None and d.module:
                 mi = self.repo.module(d.module)
-                q = f"{d.src_name}.{name}"
+                q = f"{d.src_path or d.src_name}.{name}"
                 if q in mi.funcs:
                     return ("src", d.module, mi.funcs[q], c, q)
+                if d.src_path:
+                    try:
+                        _mi, fnode = self.repo.func(f"{d.module}:{q}")
+                        if isinstance(fnode, ast.FunctionDef) and fnode.name == name:
+                            return ("src", d.module, fnode, c, q)
+                    except EngineError:
+                        pass
             if key in self.schema.contracts:
                 return ("ext", key, None, c, None)
         return None
@@ -675,7 +682,8 @@ class CallMixin:
                 s.assume(self.spec_eval(expr, s, env2, old=old, mode="hyp", module=cmod))
             if not c.ensures_ or self.feasible(s):
                 outs.append(("val", s, res))
-            elif not exc_specs:
+                n_normal_ok = True
+            elif not exc_specs and s is results[-1][0] and not any(o_[0] == "val" for o_ in outs):
                 # a contract whose postcondition cannot be met at this call site would silently remove the path
                 self.results.append(__import__("pyvc.engine", fromlist=["VCResult"]).VCResult(
                     f"{caller}@call:{short}/guard/postcondition-satisfiable", self.prop_of(None), self.cur_key, "vacuous",
@@ -705,6 +713,11 @@ class CallMixin:
 
     def havoc_modifies(self, c, st, env):
         self._havoc_mod = c.key.split(":")[0] if ":" in c.key else None
+        if c.modifies_ and not c.trusted:
+            # the callee may have allocated objects: references it leaves behind may be new
+            nxt = fresh_const("alloc", ty.IntS)
+            st.assume(nxt >= st.alloc)
+            st.alloc = nxt
         for path in (c.modifies_ or []):
             self.havoc_path(path, st, env)
 
